@@ -310,8 +310,15 @@ enum Ret {
 /// Replays `actions[*pos..]` with `rt` as the current top of the stack.  Frames
 /// nest on the Rust call stack; at the end the top-of-stack is observed, and on
 /// the way out every live layer reports the counters it sees.
-fn replay(rt: &dyn Runtime, actions: &[Action], pos: &mut usize, out: &mut Option<(Vec<String>, Vec<String>)>, counters_seen: &mut Vec<Vec<String>>) -> Ret {
+fn replay(rt: &dyn Runtime, actions: &[Action], pos: &mut usize, out: &mut Option<(Vec<String>, Vec<String>)>, counters_seen: &mut Vec<Vec<String>>, inter: &mut Option<Vec<String>>) -> Ret {
     loop {
+        // observing mode: every live top-of-stack is looked at before each step (lookups are reads: they must not
+        // change what a later lookup answers)
+        if let Some(problems) = inter.as_mut() {
+            if *pos < actions.len() {
+                problems.extend(real_observe(rt).1);
+            }
+        }
         if *pos == actions.len() {
             if out.is_none() {
                 *out = Some(real_observe(rt));
@@ -325,16 +332,16 @@ fn replay(rt: &dyn Runtime, actions: &[Action], pos: &mut usize, out: &mut Optio
             Action::PushPlain(m) => {
                 let data = real_object(&m);
                 let frame = StackFrame::new(rt, &data);
-                replay(&frame, actions, pos, out, counters_seen)
+                replay(&frame, actions, pos, out, counters_seen, inter)
             }
             Action::PushSandbox(m) => {
                 let data = real_object(&m);
                 let frame = SandboxedStackFrame::new(rt, &data);
-                replay(&frame, actions, pos, out, counters_seen)
+                replay(&frame, actions, pos, out, counters_seen, inter)
             }
             Action::PushGlobal => {
                 let frame = GlobalFrame::new(rt);
-                replay(&frame, actions, pos, out, counters_seen)
+                replay(&frame, actions, pos, out, counters_seen, inter)
             }
             Action::Pop => return Ret::Popped,
             Action::AssignGlobal(k, v) => {
@@ -365,13 +372,44 @@ pub fn conform(abs: &Abs, history: &[Action]) -> Option<String> {
         let mut pos = 0;
         let mut out = None;
         let mut seen = Vec::new();
-        replay(&rt, history, &mut pos, &mut out, &mut seen);
+        replay(&rt, history, &mut pos, &mut out, &mut seen, &mut None);
         (out, seen)
     });
     let (out, seen) = match r {
         Err(pi) => return Some(pi.describe()),
         Ok(x) => x,
     };
+    // the same history once more on fresh objects, this time looking at every intermediate stack on the way: the
+    // final answers must be the same (an optional lookup that missed must not be remembered past a later write)
+    if history.len() > 1 {
+        let r2 = guard(|| {
+            let base = real_object(&BASE_DATA);
+            let rt = RuntimeBuilder::new().set_globals(&base).build();
+            let mut pos = 0;
+            let mut out = None;
+            let mut seen = Vec::new();
+            let mut inter = Some(Vec::new());
+            replay(&rt, history, &mut pos, &mut out, &mut seen, &mut inter);
+            (out, inter.unwrap_or_default())
+        });
+        match r2 {
+            Err(pi) => return Some(pi.describe()),
+            Ok((out2, problems)) => {
+                if let Some(p) = problems.first() {
+                    return Some(format!("on an intermediate stack: {p}"));
+                }
+                if let (Some((o1, _)), Some((o2, p2))) = (&out, &out2) {
+                    if let Some(p) = p2.first() {
+                        return Some(format!("after intermediate lookups: {p}"));
+                    }
+                    if o1 != o2 {
+                        let d = o1.iter().zip(o2.iter()).find(|(a, b)| a != b).map(|(a, b)| format!("{a} without, {b} with")).unwrap_or_default();
+                        return Some(format!("lookups are not reads: the final answers differ when every intermediate stack was looked at first ({d})"));
+                    }
+                }
+            }
+        }
+    }
     let Some((obs, problems)) = out else { return Some("replay did not reach the end of the history".into()) };
     if let Some(p) = problems.first() {
         return Some(p.clone());
@@ -539,7 +577,7 @@ fn summarize<C: Checker<StackModel>>(checker: C) -> (u64, u64, u64, usize, Optio
 pub fn run(tier: Tier) -> i32 {
     let report = Report::new("C18", tier, "model_checking");
     let (max_layers, max_ops) = if tier.thorough() { (4, 6) } else { (3, 5) };
-    report.set_rule("explicit-state model: state = stack of pushed layers (plain / sandboxed / global, each over all 9 maps of 2 names x {absent, scalar, object}) + the builder's global map + counters + operation count; 32 actions (push plain/sandbox x 9 maps, push global, pop, assign-global x 8 incl. two value coincidences - the integer a counter holds and the text a pushed layer holds -, set-counter x 4); every transition re-executes the whole history on the real RuntimeBuilder/StackFrame/SandboxedStackFrame/GlobalFrame types and compares get/try_get of every path of length 1..2 over {a,b,k,zz,size,first} x {a,b,k,size}, roots() and get_index with the model; states = unique abstract states, transitions = successor computations (each replayed), traces_validated = replays");
+    report.set_rule("explicit-state model: state = stack of pushed layers (plain / sandboxed / global, each over all 9 maps of 2 names x {absent, scalar, object}) + the builder's global map + counters + operation count; 32 actions (push plain/sandbox x 9 maps, push global, pop, assign-global x 8 incl. two value coincidences - the integer a counter holds and the text a pushed layer holds -, set-counter x 4); every transition re-executes the whole history on the real RuntimeBuilder/StackFrame/SandboxedStackFrame/GlobalFrame types and compares get/try_get of every path of length 1..2 over {a,b,k,zz,size,first} x {a,b,k,size}, roots() and get_index with the model; every history is executed a second time with the same observations made on every intermediate stack (final answers must not change); states = unique abstract states, transitions = successor computations (each replayed), traces_validated = replays");
     report.assume("state identity is the abstract state; sound because every transition proves the real observations are a function of it; guarded by an un-deduplicated enumeration of all operation sequences and by running BFS and DFS and comparing unique-state counts");
     let threads = crate::run::threads();
     let mut counts = Vec::new();
